@@ -253,3 +253,24 @@ def relation_in(found: ast.AST, accepted_srcs: list[str]) -> tuple[bool, dict]:
         e = N.boolean_nf(substitute_len(expr_of(src)))
         keys.append(N.nf_key(e))
     return N.nf_key(f) in keys, {"found": N.nf_str(f), "accepted": accepted_srcs}
+
+
+def same_expr(node: ast.AST | None, *accepted_srcs: str) -> bool:
+    "structural equality (ast.dump, so independent of layout/parentheses/quotes) with one of the accepted expressions"
+    if node is None:
+        return False
+    d = ast.dump(node)
+    for src in accepted_srcs:
+        if ast.dump(ast.parse(src, mode="eval").body) == d:
+            return True
+    return False
+
+
+def same_stmt(node: ast.AST | None, *accepted_srcs: str) -> bool:
+    if node is None:
+        return False
+    d = ast.dump(node)
+    for src in accepted_srcs:
+        if ast.dump(ast.parse(src).body[0]) == d:
+            return True
+    return False
